@@ -250,9 +250,13 @@ def d_fun(name, x: Dual) -> Dual:
 class Arr:
     """n-d array as nested python lists of Dual with an explicit shape."""
 
-    def __init__(self, data, shape):
+    isbool = False
+
+    def __init__(self, data, shape, isbool=False):
         self.data = data          # flat list
         self.shape = tuple(shape)
+        if isbool:
+            self.isbool = True
 
     @staticmethod
     def from_nested(x):
@@ -413,9 +417,19 @@ class Closure:
         return f"<closure {self.scope.qualname}>"
 
 
+class Unknown:
+    """Value of a statement that could not be interpreted (tolerant mode); any use of it fails again."""
+    def __init__(self, why):
+        self.why = why
+
+    def __repr__(self):
+        return f"<unknown: {self.why[:60]}>"
+
+
 class Record:
-    def __init__(self, tname, fields, values):
+    def __init__(self, tname, fields, values, cls=None):
         self.tname, self.fields, self.values = tname, list(fields), list(values)
+        self.cls = cls      # class scope (dataclass-like modules): properties and methods are looked up there
 
     def get(self, name):
         return self.values[self.fields.index(name)]
@@ -501,6 +515,7 @@ class Interp:
         self.special = {}        # qualname -> python callable(interp, args, kwargs)
         self.visited = set()
         self.policy = None       # None: undecidable comparisons raise; True/False: they evaluate to this value
+        self.tolerant = False    # True: an assignment that cannot be interpreted binds Unknown instead of aborting
         self.undecided_comparisons = 0
 
     # ---- module environments
@@ -567,7 +582,10 @@ class Interp:
         return e.value
 
     def e_Name(self, e, env):
-        return self.lookup(e.id, env)
+        v = self.lookup(e.id, env)
+        if isinstance(v, Unknown) and not self.tolerant:
+            raise EvalError(f"{e.id} is unknown ({v.why[:60]})")
+        return v
 
     def e_Tuple(self, e, env):
         return tuple(self.eval(x, env) for x in e.elts)
@@ -592,6 +610,31 @@ class Interp:
         if sc is None:
             raise EvalError("lambda scope")
         return Closure(sc, env)
+
+    def _comp(self, e, env, make):
+        out = []
+
+        def rec(k, env_k):
+            if k == len(e.generators):
+                out.append(make(env_k))
+                return
+            g = e.generators[k]
+            it = self.eval(g.iter, env_k)
+            if isinstance(it, Arr):
+                it = [it.index(i) for i in range(it.shape[0])]
+            for x in it:
+                e2 = Env(env_k.scope, env_k)
+                self.assign(g.target, x, e2)
+                if all(self.truth(self.eval(c, e2)) for c in g.ifs):
+                    rec(k + 1, e2)
+        rec(0, env)
+        return out
+
+    def e_ListComp(self, e, env):
+        return self._comp(e, env, lambda en: self.eval(e.elt, en))
+
+    def e_GeneratorExp(self, e, env):
+        return self._comp(e, env, lambda en: self.eval(e.elt, en))
 
     def e_IfExp(self, e, env):
         c = self.truth(self.eval(e.test, env))
@@ -656,6 +699,8 @@ class Interp:
                 return Fraction(a) ** b if b < 0 else a ** b
         if isinstance(a, tuple) and isinstance(b, tuple) and isinstance(op, ast.Add):
             return a + b
+        if isinstance(a, list) and isinstance(b, list) and isinstance(op, ast.Add):
+            return a + b
         if isinstance(op, ast.MatMult):
             return matmul(self.num(a), self.num(b))
         if isinstance(op, ast.Pow):
@@ -685,7 +730,11 @@ class Interp:
 
     def compare(self, a, op, b):
         if isinstance(op, (ast.In, ast.NotIn)):
-            r = a in b
+            if isinstance(b, Arr):
+                av = self.as_int(a)
+                r = any(rat_const(x.a) == av for x in b.data)
+            else:
+                r = a in b
             return r if isinstance(op, ast.In) else not r
         if isinstance(op, (ast.Is, ast.IsNot)):
             r = (a is b) or (a is None and b is None)
@@ -756,8 +805,24 @@ class Interp:
                 return int(c)
         raise EvalError(f"not an integer: {v!r}")
 
+    def _norm_key(self, key):
+        if isinstance(key, tuple):
+            return tuple(self._norm_key(k) for k in key)
+        if isinstance(key, (Dual, Fraction)):
+            return self.as_int(key)
+        return key
+
     def getitem(self, base, key):
+        key = self._norm_key(key)
         if isinstance(base, Arr):
+            if isinstance(key, Arr) and key.isbool:
+                keep = [i for i, x in enumerate(key.data) if rat_const(x.a) == 1]
+                key = Arr([Dual(i) for i in keep], (len(keep),))
+            if isinstance(key, Arr):      # integer-array (gather) indexing along the first axis
+                rows = [base.index(self.as_int(k)) for k in key.ravel().data]
+                if all(isinstance(r, Dual) for r in rows):
+                    return Arr(rows, (len(rows),))
+                return Arr([x for r in rows for x in r.data], (len(rows),) + tuple(rows[0].shape))
             return base.index(key)
         if isinstance(base, PosVec):
             return base.item(self.as_int(key))
@@ -782,7 +847,17 @@ class Interp:
         if isinstance(base, Ext):
             return Ext(canonical_ext(base.name + "." + a))
         if isinstance(base, Record):
-            return base.get(a)
+            if a in base.fields:
+                return base.get(a)
+            if base.cls is not None:
+                for c in base.cls.children:
+                    if c.kind == "function" and c.name == a:
+                        decos = [norm_src(d) for d in c.node.decorator_list]
+                        cl = Closure(c, self.module_env(c.module))
+                        if "property" in decos:
+                            return self.call_closure(cl, [base], {})
+                        return PyFunc(f"{base.tname}.{a}", lambda it, args, kw, cl=cl, base=base: it.call_closure(cl, [base] + list(args), kw))
+            raise EvalError(f"attribute {a} of {base!r}")
         if isinstance(base, Arr):
             if a == "T":
                 return base.T()
@@ -914,7 +989,10 @@ class Interp:
             if name == "get":
                 return base.arr.index(base.key)
             if name in ("set", "add"):
-                return at_update(base.arr, base.key, self.num(args[0]), add=(name == "add"))
+                val = args[0]
+                if isinstance(val, bool) and base.arr.isbool:
+                    val = Dual(1 if val else 0)
+                return at_update(base.arr, self._norm_key(base.key), self.num(val), add=(name == "add"))
         raise EvalError(f"method {name} of {base!r}")
 
     def call_ext(self, name, args, kwargs):
@@ -924,6 +1002,19 @@ class Interp:
             return None
         if name == "builtins.range":
             return list(range(*[self.as_int(a) for a in args]))
+        if name == "builtins.reversed":
+            a = args[0]
+            if isinstance(a, Arr):
+                a = [a.index(i) for i in range(a.shape[0])]
+            return list(reversed(list(a)))
+        if name == "builtins.list":
+            a = args[0] if args else []
+            if isinstance(a, Arr):
+                return [a.index(i) for i in range(a.shape[0])]
+            return list(a)
+        if name == "builtins.sorted":
+            a = list(args[0])
+            return sorted(a, key=lambda v: self.as_int(v) if not isinstance(v, (str, int)) else v)
         if name == "builtins.len":
             a = args[0]
             return a.shape[0] if isinstance(a, Arr) else len(a)
@@ -956,6 +1047,17 @@ class Interp:
             return self.spectral("exp", n(args[0]))
         if name == "<register>":
             return None
+        if name.startswith("class:"):
+            csc = self.repo.find(name[len("class:"):])
+            if csc is not None:
+                fields = [st.target.id for st in csc.node.body if isinstance(st, ast.AnnAssign) and isinstance(st.target, ast.Name)]
+                if fields and len(args) <= len(fields):
+                    vals = list(args) + [None] * (len(fields) - len(args))
+                    for k, v in kwargs.items():
+                        if k not in fields:
+                            raise EvalError(f"unknown field {k} of {name}")
+                        vals[fields.index(k)] = v
+                    return Record(csc.name, fields, vals, cls=csc)
         raise EvalError(f"external function {name}")
 
     def spectral(self, fname, A, extra=None):
@@ -980,6 +1082,32 @@ class Interp:
             for s in shp:
                 sz *= s
             return Arr([Dual(0 if fn == "zeros" else 1) for _ in range(sz)], shp)
+        if fn == "arange":
+            return Arr([Dual(i) for i in range(*[self.as_int(a) for a in args])], (len(range(*[self.as_int(a) for a in args])),))
+        if fn == "cumsum":
+            x = n(args[0])
+            out, acc = [], Dual(0)
+            for v in x.ravel().data:
+                acc = acc + v
+                out.append(acc)
+            return Arr(out, (len(out),))
+        if fn == "flip":
+            x = n(args[0])
+            if x.ndim != 1:
+                raise EvalError("flip of a multi-dimensional array")
+            return Arr(list(reversed(x.data)), x.shape)
+        if fn == "full":
+            shp = args[0]
+            shp = (self.as_int(shp),) if not isinstance(shp, (tuple, list)) else tuple(self.as_int(s_) for s_ in shp)
+            sz = 1
+            for s_ in shp:
+                sz *= s_
+            if isinstance(args[1], bool):
+                return Arr([Dual(1 if args[1] else 0) for _ in range(sz)], shp, isbool=True)
+            return Arr([n(args[1]) for _ in range(sz)], shp)
+        if fn == "zeros_like":
+            x = n(args[0])
+            return Arr([Dual(0)] * len(x.data), x.shape)
         if fn in ("array", "asarray"):
             a = args[0]
             if isinstance(a, Arr):
@@ -1063,9 +1191,20 @@ class Interp:
 
     def stmt(self, st, env):
         if isinstance(st, ast.Assign):
-            v = self.eval(st.value, env)
-            for t in st.targets:
-                self.assign(t, v, env)
+            try:
+                v = self.eval(st.value, env)
+                for t in st.targets:
+                    self.assign(t, v, env)
+            except EvalError as ex:
+                if not self.tolerant:
+                    raise
+                # partial evaluation: the targets become unknown, evaluation continues
+                for t in st.targets:
+                    for nme in ast.walk(t):
+                        if isinstance(nme, ast.Name) and isinstance(nme.ctx, ast.Store):
+                            env.vars[nme.id] = Unknown(str(ex))
+                        elif isinstance(t, ast.Subscript) and isinstance(t.value, ast.Name):
+                            env.vars[t.value.id] = Unknown(str(ex))
         elif isinstance(st, ast.AugAssign):
             cur = self.eval(ast.Name(id=st.target.id, ctx=ast.Load()), env) if isinstance(st.target, ast.Name) else None
             if cur is None:
@@ -1115,6 +1254,15 @@ class Interp:
                 base[key] = v
             elif isinstance(base, list):
                 base[key] = v
+            elif isinstance(base, Arr) and isinstance(t.value, ast.Name):
+                new = at_update(base, self._norm_key(key), self.num(v) if not isinstance(v, Arr) else v)
+                # numpy arrays are mutable: every alias in scope sees the store
+                e_ = env
+                while e_ is not None:
+                    for k_, v_ in list(e_.vars.items()):
+                        if v_ is base:
+                            e_.vars[k_] = new
+                    e_ = e_.parent
             else:
                 raise EvalError("subscript store")
         else:
@@ -1138,7 +1286,16 @@ def at_update(arr: Arr, key, val, add=False):
     key = key + (slice(None),) * (arr.ndim - len(key))
     ranges = []
     for k, s in zip(key, arr.shape):
-        ranges.append(list(range(*k.indices(s))) if isinstance(k, slice) else [k if k >= 0 else k + s])
+        if isinstance(k, Arr):
+            ks = []
+            for x in k.ravel().data:
+                c = rat_const(x.a)
+                if c is None or c.denominator != 1:
+                    raise EvalError("non-integer index array")
+                ks.append(int(c) if c >= 0 else int(c) + s)
+            ranges.append(ks)
+        else:
+            ranges.append(list(range(*k.indices(s))) if isinstance(k, slice) else [k if k >= 0 else k + s])
     data = list(arr.data)
     idxs = list(itertools.product(*ranges))
     vals = val.data if isinstance(val, Arr) else [val] * len(idxs)
@@ -1150,7 +1307,7 @@ def at_update(arr: Arr, key, val, add=False):
             off += i * stride
             stride *= s
         data[off] = (data[off] + v) if add else v
-    return Arr(data, arr.shape)
+    return Arr(data, arr.shape, isbool=arr.isbool)
 
 
 def env_root_module(env: Env):
